@@ -14,6 +14,7 @@ import (
 	"strconv"
 	"strings"
 	"sync"
+	"sync/atomic"
 	"syscall"
 	"time"
 )
@@ -178,6 +179,7 @@ func RunDriver(p Property, o DriverOpts) int {
 	anyRace := race || sampleStride > 0
 	states := make([]*workerState, KK)
 	var wg sync.WaitGroup
+	var totalDeaths, stopAll int32
 	for k := 0; k < KK; k++ {
 		ws := &workerState{k: k}
 		states[k] = ws
@@ -232,6 +234,15 @@ func RunDriver(p Property, o DriverOpts) int {
 					case werr = <-done:
 						break poll
 					case <-time.After(200 * time.Millisecond):
+					}
+					if atomic.LoadInt32(&stopAll) == 1 {
+						// the verdict is in (eight worker processes died): nothing further is learnt by waiting
+						// for the rest of a tree that hangs or crashes everywhere
+						cmd.Process.Kill()
+						<-done
+						errf.Close()
+						ws.inconcl = append(ws.inconcl, fmt.Sprintf("worker %d stopped: eight worker processes have died in this run; the remaining cases of its shard were not run", k))
+						return
 					}
 					idx := readMarker(marker)
 					cpu, sleeping, ok := procCPU(cmd.Process.Pid)
@@ -294,6 +305,9 @@ func RunDriver(p Property, o DriverOpts) int {
 					ws.viols = append(ws.viols, Violation{Index: idx, Class: class, Msg: msg, Detail: tail(string(eb), 3000)})
 				}
 				ws.crashes++
+				if atomic.AddInt32(&totalDeaths, 1) >= 8 {
+					atomic.StoreInt32(&stopAll, 1)
+				}
 				if ws.crashes >= 12 {
 					ws.inconcl = append(ws.inconcl, fmt.Sprintf("worker %d: more than 12 process deaths; remaining cases of this shard not run", k))
 					return
